@@ -20,32 +20,50 @@ theorem addJunction_cases (s : Reg) (n : Name) (p : Option Name) (obj : Bool) :
   unfold addJunction addJunctionR
   cases h : AL.get? s.nodes n <;> simp [h]
 
-theorem leakControls_not_refused (c : List (Name × List Nat)) (n uid : Nat) (a b : Bool) :
-    (leakControls c n uid a b).2 ≠ .refused := by
+/-- `add_leak` of the repaired code: both names are tested first, so it either adds its controls or changes nothing -/
+theorem leakControls_repaired (c : List (Name × List Nat)) (n uid : Nat) (a b : Bool) :
+    leakControls repaired c n uid a b = (c, .error) ∨ (leakControls repaired c n uid a b).2 = .ok := by
   unfold leakControls
-  cases a <;> cases b <;> simp only [Bool.false_eq_true, if_false, if_true, ne_eq, not_true_eq_false, reduceCtorEq, not_false_eq_true]
-  · split <;> simp
-  · split <;> simp
-  · by_cases h1 : AL.has c (leakCtl n true) = true
-    · rw [if_pos h1]; simp
-    · rw [if_neg h1]; simp only [not_true_eq_false, if_false]; split <;> simp
+  by_cases hg : (repaired.leakChecksFirst && ((a && AL.has c (leakCtl n true)) || (b && AL.has c (leakCtl n false)))) = true
+  · rw [if_pos hg]; exact Or.inl rfl
+  · rw [if_neg hg]
+    right
+    have hg' : (a = true → AL.has c (leakCtl n true) = false) ∧ (b = true → AL.has c (leakCtl n false) = false) := by
+      cases a <;> cases b <;> simp_all [repaired]
+    have hne : leakCtl n true ≠ leakCtl n false := by unfold leakCtl; simp
+    have nf : ∀ x : Bool, x = false → ¬ (x = true) := fun x hx => by rw [hx]; exact Bool.false_ne_true
+    cases a <;> cases b
+    · rfl
+    · show (if AL.has c (leakCtl n false) = true then (c, Out.error) else (AL.set c (leakCtl n false) [uid], Out.ok)).2 = .ok
+      rw [if_neg (nf _ (hg'.2 rfl))]
+    · show (if (if AL.has c (leakCtl n true) = true then (c, Out.error) else (AL.set c (leakCtl n true) [uid], Out.ok)).2 ≠ .ok
+            then (if AL.has c (leakCtl n true) = true then (c, Out.error) else (AL.set c (leakCtl n true) [uid], Out.ok))
+            else (if AL.has c (leakCtl n true) = true then (c, Out.error) else (AL.set c (leakCtl n true) [uid], Out.ok))).2 = .ok
+      rw [if_neg (nf _ (hg'.1 rfl))]; simp
+    · have h1 := hg'.1 rfl; have h2 := hg'.2 rfl
+      have h3 : AL.has (AL.set c (leakCtl n true) [uid]) (leakCtl n false) = false := by
+        rw [AL.has_eq, AL.get?_set, if_neg hne]; rw [AL.has_eq] at h2; exact h2
+      show (if (if AL.has c (leakCtl n true) = true then (c, Out.error) else (AL.set c (leakCtl n true) [uid], Out.ok)).2 ≠ .ok
+            then (if AL.has c (leakCtl n true) = true then (c, Out.error) else (AL.set c (leakCtl n true) [uid], Out.ok))
+            else (if AL.has (if AL.has c (leakCtl n true) = true then (c, Out.error) else (AL.set c (leakCtl n true) [uid], Out.ok)).1 (leakCtl n false) = true
+                  then ((if AL.has c (leakCtl n true) = true then (c, Out.error) else (AL.set c (leakCtl n true) [uid], Out.ok)).1, Out.error)
+                  else (AL.set (if AL.has c (leakCtl n true) = true then (c, Out.error) else (AL.set c (leakCtl n true) [uid], Out.ok)).1 (leakCtl n false) [uid], Out.ok))).2 = .ok
+      rw [if_neg (nf _ h1)]
+      simp only [ne_eq, not_true_eq_false, if_false]
+      rw [if_neg (nf _ h3)]
 
-theorem addLeak_not_refused (s : Reg) (n : Name) (a b : Bool) : (addLeak s n a b).2 ≠ .refused := by
+theorem addLeak_cases (s : Reg) (n : Name) (a b : Bool) :
+    addLeak repaired s n a b = (s, .error) ∨
+    (∃ c, addLeak repaired s n a b = ({ s with controls := c }, .ok)) := by
   unfold addLeak
   split
-  · simp
+  · exact Or.inl rfl
   · split
-    · simp
-    · exact leakControls_not_refused _ _ _ _ _
-
-theorem addLeak_frame (s : Reg) (n : Name) (a b : Bool) :
-    (addLeak s n a b).1.nodes = s.nodes ∧ (addLeak s n a b).1.links = s.links ∧ (addLeak s n a b).1.patterns = s.patterns ∧
-    (addLeak s n a b).1.curves = s.curves ∧ (addLeak s n a b).1.sources = s.sources ∧ (addLeak s n a b).1.usage = s.usage ∧
-    (addLeak s n a b).1.typed = s.typed := by
-  unfold addLeak
-  split
-  · exact ⟨rfl, rfl, rfl, rfl, rfl, rfl, rfl⟩
-  · split <;> exact ⟨rfl, rfl, rfl, rfl, rfl, rfl, rfl⟩
+    · exact Or.inl rfl
+    · rename_i i _ _
+      rcases leakControls_repaired s.controls n i.uid a b with e | e
+      · left; rw [e]
+      · right; exact ⟨_, by rw [e]⟩
 
 theorem removeLeak_cases (s : Reg) (n : Name) :
     removeLeak s n = (s, .error) ∨
@@ -418,6 +436,18 @@ theorem removeFire_cases (s : Reg) (n : Name) :
           have : inUse (removeFireR s n p i) .pattern p = false := (inUse_false _ _ _).2 hu
           exact ⟨hu, by simp [this, e]⟩
     · simp [hk]
+
+def setSourceNodeR (s : Reg) (n node : Name) (si : SourceInfo) : Reg :=
+  { (addUsage (removeUsageT s .node si.node (n, .source)) .node node (n, .source)) with
+    sources := AL.set s.sources n { si with node := node } }
+
+theorem setSourceNode_cases (s : Reg) (n node : Name) :
+    setSourceNode repaired s n node = (s, .error) ∨
+    (∃ si, AL.get? s.sources n = some si ∧ setSourceNode repaired s n node = (setSourceNodeR s n node si, .ok)) := by
+  unfold setSourceNode setSourceNodeR
+  cases h : AL.get? s.sources n with
+  | none => exact Or.inl rfl
+  | some si => exact Or.inr ⟨si, rfl, by simp⟩
 
 theorem removeControl_cases (s : Reg) (n : Name) :
     removeControl s n = (s, .error) ∨ removeControl s n = ({ s with controls := AL.del s.controls n }, .ok) := by
